@@ -162,33 +162,37 @@ def run(ctx):
             run_case(ctx, q, {'t': mt}, 'text' if (idx + rep) % 6 == 0 else 'ast', f'exh/{n}/{pattern}/{mode}', mon)
         ctx.count('exhaustive.executed')
     # random part
-    rng = ctx.rng('random')
     for n in range(ctx.pick(600, 10000)):
         if ctx.out_of_time():
             break
-        ties = rng.random() < 0.6
-        mt = gen.gen_table(rng, 't', max_rows=ctx.pick(12, 40), ties=ties)
-        qg = gen.QueryGen(rng, max_depth=3, obj_keys=False)
-        if rng.random() < 0.35:
-            q = qg.aggregate()
-            q.order_by = qg.order_keys(q, aggregate=True)
-            ctx.count('random.aggregate')
-        else:
-            q = qg.simple(with_k=rng.random() < 0.7)
-            if rng.random() < 0.25:
-                # duplicate output names with positional references
-                t0 = q.targets[rng.randrange(len(q.targets))]
-                q.targets.append(ir.Target(t0.expr, t0.alias))
-            q.order_by = qg.order_keys(q) if rng.random() < 0.85 else None
-        q.distinct = rng.random() < 0.3
-        q.limit = limits_for(rng, len(mt.rows))
-        if q.distinct:
-            # DISTINCT needs hashable visible rows: all harness scalar types are
-            pass
-        route = 'text' if rng.random() < 0.12 else 'ast'
-        run_case(ctx, q, {'t': mt}, route, f'random/{n}', mon)
-        ctx.count('random.executed')
+        random_case(ctx, n, mon)
     ledger_part(ctx, mon)
+
+
+def random_case(ctx, n, mon):
+    rng = ctx.rng('random', n)
+    ties = rng.random() < 0.6
+    mt = gen.gen_table(rng, 't', max_rows=ctx.pick(12, 40), ties=ties)
+    qg = gen.QueryGen(rng, max_depth=3, obj_keys=False)
+    if rng.random() < 0.35:
+        q = qg.aggregate()
+        q.order_by = qg.order_keys(q, aggregate=True)
+        ctx.count('random.aggregate')
+    else:
+        q = qg.simple(with_k=rng.random() < 0.7)
+        if rng.random() < 0.25:
+            # duplicate output names with positional references
+            t0 = q.targets[rng.randrange(len(q.targets))]
+            q.targets.append(ir.Target(t0.expr, t0.alias))
+        q.order_by = qg.order_keys(q) if rng.random() < 0.85 else None
+    q.distinct = rng.random() < 0.3
+    q.limit = limits_for(rng, len(mt.rows))
+    if q.distinct:
+        # DISTINCT needs hashable visible rows: all harness scalar types are
+        pass
+    route = 'text' if rng.random() < 0.12 else 'ast'
+    run_case(ctx, q, {'t': mt}, route, f'random/{n}', mon)
+    ctx.count('random.executed')
 
 
 def ledger_part(ctx, mon):
@@ -228,7 +232,12 @@ def ledger_case(ctx, conn, table, shown, key, desc):
 
 
 def replay(ctx, case):
-    print('replay: re-run with the same VERIF_SEED; case was:', case)
+    mon = monitors.install()
+    label = (case or {}).get('label', '')
+    if label.startswith('random/'):
+        random_case(ctx, int(label.split('/')[1]), mon)
+    else:
+        print('replay: exhaustive/ledger case; re-run the check with the same VERIF_SEED. case:', case)
 
 
 def finalize(merged):
